@@ -1,5 +1,5 @@
 import VizierModel.Driver.Util
-import VizierModel.Model.Wire
+import VizierModel.Model.WireEndpoint
 open Lean VizierModel.Driver VizierModel VizierModel.Wire
 
 /-! JSON line driver for C09.  Strings travel as arrays of code points, rationals as "p/q",
@@ -282,6 +282,16 @@ def jPStudy (s : PStudy) : Json :=
   Json.mkObj [("metrics", jList jPMetric s.metrics), ("params", jList jPSpec s.params), ("alg", jStr s.algorithm),
     ("stopping", jBool s.stopping), ("noise", jNoise s.noise), ("md", jList jKV s.metadata)]
 
+/-- a study config with its `pythia_endpoint` (field "endpoint": absent / null = `None`) -/
+def studyEOf (j : Json) : E StudyE := do
+  let e ← match j.getObjVal? "endpoint" with
+    | .ok .null => pure none
+    | .ok v => some <$> mdValOf v
+    | .error _ => pure none
+  return { base := ← studyOf j, endpoint := e }
+def jStudyE (s : StudyE) : Json :=
+  (jStudy s.base).mergeObj (Json.mkObj [("endpoint", match s.endpoint with | none => Json.null | some v => jMdVal v)])
+
 def descriptorOf (j : Json) : E Descriptor := do
   return { config := ← problemOf (← fld j "config"), guid := ← strOf (← fld j "guid"), maxTrialId := ← intOf (← fld j "max") }
 def jDescriptor (d : Descriptor) : Json :=
@@ -358,7 +368,10 @@ def handle (j : Json) : E Json := do
   | "suggestion" => answer j suggestionOf jSuggestion jPSuggestion suggestionToProto suggestionFromProto suggestionNorm
   | "trial" => answer j trialOf jTrial jPTrial trialToProto (trialFromProto cfg) trialNorm
   | "problem" => answer j problemOf jProblem jPProblem (problemToProto cfg) (problemFromProto cfg) problemNorm
-  | "study" => answer j studyOf jStudy jPStudy (studyToProto cfg) (studyFromProto cfg) studyNorm
+  | "study" =>
+    -- "endpointMerged": which variant of StudyConfig.to_proto's endpoint write the current tree has
+    let merged := (j.getObjValAs? Bool "endpointMerged").toOption.getD true
+    answer j studyEOf jStudyE jPStudy (studyEToProto cfg merged) (studyEFromProto cfg) studyENorm
   | "sreq" => answer j sreqOf jSReq jPSReq (suggestRequestToProto cfg) (suggestRequestFromProto cfg) suggestRequestNorm
   | "sdec" => answer j sdecOf jSDec jPSDec suggestDecisionToProto suggestDecisionFromProto suggestDecisionNorm
   | "esreq" => answer j esreqOf jESReq jPESReq (earlyStopRequestToProto cfg) (earlyStopRequestFromProto cfg) earlyStopRequestNorm
